@@ -36,6 +36,10 @@ type WorkerResult struct {
 	WallS      float64        `json:"wall_s"`
 	Decisions  int            `json:"decisions"`
 	Rule       string         `json:"rule"`
+	// Recycle: the worker stopped before its budget was used up because its heap had grown large (engine
+	// goroutines that never end keep each finished run reachable); NextRun is where a fresh process continues.
+	Recycle bool `json:"recycle,omitempty"`
+	NextRun int  `json:"next_run,omitempty"`
 }
 
 type Sample struct {
@@ -202,7 +206,17 @@ func TestWorker(t *testing.T) {
 	if op := os.Getenv("VERIF_OUT"); op != "" {
 		progress, _ = os.Create(op + ".progress")
 	}
-	for i := 0; i < maxRuns && time.Since(start) < budget; i++ {
+	first := envInt("VERIF_FIRST_RUN", 0)
+	heapLimit := uint64(envInt("VERIF_HEAP_LIMIT_MB", 2500)) << 20
+	for i := first; i-first < maxRuns && time.Since(start) < budget; i++ {
+		if (i-first)%32 == 31 {
+			var ms runtime.MemStats
+			runtime.ReadMemStats(&ms)
+			if ms.HeapInuse > heapLimit {
+				res.Recycle, res.NextRun = true, i
+				break
+			}
+		}
 		seed := mix(batch, uint64(worker), uint64(i))
 		if progress != nil {
 			progress.WriteAt([]byte(fmt.Sprintf("%-24d %-12d\n", seed, i)), 0)
